@@ -188,6 +188,14 @@ func c17Gen(rt *rapid.T) *hist.Case {
 		}
 		if rapid.IntRange(0, 2).Draw(rt, "will") == 0 {
 			a.Will = &hist.WillSpec{Topic: pick(rt, "willtopic", c17WillTopics), QoS: byte(rapid.IntRange(0, 2).Draw(rt, "wq")), Retain: rapid.Bool().Draw(rt, "wr")}
+			if versions[cl] == 5 && rapid.IntRange(0, 2).Draw(rt, "delayed") == 0 {
+				d := uint32(30) // a delayed will is parked and published later by the housekeeping: another route
+				a.Will.Delay = &d
+				if a.Expiry == nil {
+					e := uint32(100)
+					a.Expiry = &e
+				}
+			}
 		}
 		return a
 	}
@@ -196,7 +204,7 @@ func c17Gen(rt *rapid.T) *hist.Case {
 	}
 	action := rapid.Custom(func(rt *rapid.T) hist.Action {
 		cl := rapid.IntRange(0, 2).Draw(rt, "client")
-		switch rapid.IntRange(0, 11).Draw(rt, "kind") {
+		switch rapid.IntRange(0, 12).Draw(rt, "kind") {
 		case 0, 1, 2:
 			a := hist.Action{Kind: "subscribe", Client: cl}
 			for i, n := 0, rapid.IntRange(1, 2).Draw(rt, "nf"); i < n; i++ {
@@ -211,6 +219,8 @@ func c17Gen(rt *rapid.T) *hist.Case {
 			return hist.Action{Kind: "disconnect", Client: cl}
 		case 9, 10:
 			return connect(cl)
+		case 11:
+			return hist.Action{Kind: "tick", Tick: "wills", Offset: 100000}
 		default:
 			return hist.Action{Kind: "unsubscribe", Client: cl, Filters: []refmqtt.Filter{{Filter: pick(rt, "filter", c17Filters)}}}
 		}
@@ -218,6 +228,7 @@ func c17Gen(rt *rapid.T) *hist.Case {
 	c.Actions = append(c.Actions, rapid.SliceOfN(action, 4, 30).Draw(rt, "actions")...)
 	// at the end everybody drops (wills fire), and a fresh subscriber with its own permissions looks at the retained store
 	c.Actions = append(c.Actions, hist.Action{Kind: "drop", Client: 0}, hist.Action{Kind: "drop", Client: 1},
+		hist.Action{Kind: "tick", Tick: "wills", Offset: 100000},
 		hist.Action{Kind: "connect", Client: 1, Version: versions[1], Clean: true, AutoAck: true},
 		hist.Action{Kind: "subscribe", Client: 1, Filters: []refmqtt.Filter{{Filter: "#", QoS: 2}}},
 		hist.Action{Kind: "subscribe", Client: 1, Filters: []refmqtt.Filter{{Filter: "a/#", QoS: 1}, {Filter: "b/+", QoS: 1}}},
@@ -226,7 +237,7 @@ func c17Gen(rt *rapid.T) *hist.Case {
 }
 
 func TestC17(t *testing.T) {
-	r := evid.New("C17", "rapid: a generated permission relation perm(client, exact topic-or-filter string, read/write) with a generated default (served by a test hook; optionally with ObscureNotAuthorized), 3 clients (v3.1/v3.1.1/v5), histories of subscribe (allowed and denied filters, wildcards covering denied topics), publish (allowed/denied/$SYS topics, QoS 0-2, retain), wills on allowed / write-denied / wildcard / $SYS topics followed by drops, reconnects, and a final subscriber that replays the retained store. Oracle, over EVERY PUBLISH any connection received by any route (live, retained replay, will, resend): receiver has read permission on its topic, the originating client has write permission on it, and the topic is a valid topic name outside $SYS; SUBACK for a denied filter is 0x87 (0x80 obscured / MQTT 3) and the refused subscription never delivers. Non-trivial = the history contains a denied route (denied subscribe, publish, receiver or will) and at least one delivery; distinct by (history, permission relation)")
+	r := evid.New("C17", "rapid: a generated permission relation perm(client, exact topic-or-filter string, read/write) with a generated default (served by a test hook; optionally with ObscureNotAuthorized), 3 clients (v3.1/v3.1.1/v5), histories of subscribe (allowed and denied filters, wildcards covering denied topics), publish (allowed/denied/$SYS topics, QoS 0-2, retain), wills (immediate, and delayed ones released by the delayed-will housekeeping or by a clean-start reconnect) on allowed / write-denied / wildcard / $SYS topics followed by drops, reconnects, and a final subscriber that replays the retained store. Oracle, over EVERY PUBLISH any connection received by any route (live, retained replay, will, resend): receiver has read permission on its topic, the originating client has write permission on it, and the topic is a valid topic name outside $SYS; SUBACK for a denied filter is 0x87 (0x80 obscured / MQTT 3) and the refused subscription never delivers. Non-trivial = the history contains a denied route (denied subscribe, publish, receiver or will) and at least one delivery; distinct by (history, permission relation)")
 	defer r.Finish(t)
 	if evid.ReplayMode() {
 		evid.Replay(t, r, replayPath(), c17Check)
